@@ -1063,7 +1063,7 @@ def asan_run(ck, cases, rundir, limit=200):
         c = sel[k] if k < len(sel) else {}
         diverged = False
         try:
-            diverged = bool(c and blocks.get(k) and user_case(ck, k, c, blocks[k], {}, None, replay_of, []))
+            diverged = bool(c and blocks.get(k) and user_case(ck, k, c, blocks[k], {}, None, replay_of, ["PARTIAL"]))
         except (KeyError, IndexError, ValueError):
             pass               # the last line of an aborted process may be cut anywhere
         if diverged:
@@ -1380,6 +1380,8 @@ def user_case(ck, k, c, ls, mblocks, strip, replay_of, crash):
                 else:
                     ck.count("oracle:verdicts differ on a modified / wild LP")
         prevA = fa
+    if crash == ["PARTIAL"]:
+        return stopped         # output of a process that was aborted by the sanitizer: only the divergence matters
     if not crash and not stopped and "final" in c and steps and not any(x["skipped"] for x in steps) and "A" in steps[-1] \
             and steps[-1]["k"] == len(c["ops"]):
         fa = parse_fields(steps[-1]["A"])
